@@ -53,6 +53,8 @@ var ErrReadQuorum = errors.New("read quorum cannot be reached")
 type version struct {
 	host  *discovery.Member
 	entry storage.Entry
+	// replica is true if the version was read from a backup owner, not from a (previous) primary owner.
+	replica bool
 }
 
 // getOnFragment retrieves an entry from the associated fragment based on the provided environment details.
@@ -231,7 +233,7 @@ func (dm *DMap) lookupOnReplicas(hkey uint64, key string) []*version {
 			}
 		}
 
-		v := &version{host: &host}
+		v := &version{host: &host, replica: true}
 		e := dm.engine.NewEntry()
 		e.Decode(value)
 		v.entry = e
@@ -240,26 +242,82 @@ func (dm *DMap) lookupOnReplicas(hkey uint64, key string) []*version {
 	return versions
 }
 
+// isWinnerCurrent reports whether the winner of a read is still the most recent version of the
+// key. The caller holds the lock of the primary fragment. Writers keep that lock while they
+// update the copies on the other members, so nothing changes while this function looks again.
+func (dm *DMap) isWinnerCurrent(f *fragment, hkey uint64, winner *version) bool {
+	current, err := f.storage.Get(hkey)
+	if err != nil && !errors.Is(err, storage.ErrKeyNotFound) {
+		return false
+	}
+	if err == nil && current.Timestamp() > winner.entry.Timestamp() {
+		// Overwritten by a newer Put.
+		return false
+	}
+	if err == nil && current.Timestamp() == winner.entry.Timestamp() {
+		return true
+	}
+	if winner.host.CompareByID(dm.s.rt.This()) && !winner.replica {
+		// The winner was the local copy and it's gone.
+		return false
+	}
+
+	// The local copy is missing or older. The winner is current only if the member that
+	// served it still has that version: a Delete removes it from there first.
+	req := protocol.NewGetEntry(dm.name, winner.entry.Key())
+	if winner.replica {
+		req.SetReplica()
+	}
+	cmd := req.Command(dm.s.ctx)
+	rc := dm.s.client.Get(winner.host.String())
+	if err = rc.Process(dm.s.ctx, cmd); err != nil {
+		return false
+	}
+	value, err := cmd.Bytes()
+	if err != nil {
+		return false
+	}
+	e := dm.engine.NewEntry()
+	e.Decode(value)
+	return e.Timestamp() == winner.entry.Timestamp()
+}
+
 // readRepair performs synchronization of inconsistent replicas by applying the
 // winning version to out-of-sync nodes.
 func (dm *DMap) readRepair(winner *version, versions []*version) {
+	var stale []*version
 	for _, value := range versions {
 		if value.entry != nil && winner.entry.Timestamp() == value.entry.Timestamp() {
 			continue
 		}
+		stale = append(stale, value)
+	}
+	if len(stale) == 0 {
+		return
+	}
 
+	// The versions were collected without holding the lock of the fragment. A Delete or a
+	// newer Put may have completed in the meantime: applying the winner now would bring the
+	// deleted key back or replace the newer value, on this member or on a backup. Take the
+	// lock that every writer of this key holds, check the winner again and repair under it.
+	hkey := partitions.HKey(dm.name, winner.entry.Key())
+	part := dm.getPartitionByHKey(hkey, partitions.PRIMARY)
+	f, err := dm.loadOrCreateAndLockFragment(part)
+	if err != nil {
+		dm.s.log.V(3).Printf("[ERROR] Failed to get or create the fragment for: %s on %s: %v",
+			winner.entry.Key(), dm.name, err)
+		return
+	}
+	defer f.Unlock()
+
+	if !dm.isWinnerCurrent(f, hkey, winner) {
+		return
+	}
+
+	for _, value := range stale {
 		// Sync
 		tmp := *value.host
 		if tmp.CompareByID(dm.s.rt.This()) {
-			hkey := partitions.HKey(dm.name, winner.entry.Key())
-			part := dm.getPartitionByHKey(hkey, partitions.PRIMARY)
-			f, err := dm.loadOrCreateAndLockFragment(part)
-			if err != nil {
-				dm.s.log.V(3).Printf("[ERROR] Failed to get or create the fragment for: %s on %s: %v",
-					winner.entry.Key(), dm.name, err)
-				return
-			}
-
 			e := newEnv(context.Background())
 			e.hkey = hkey
 			e.fragment = f
@@ -267,7 +325,6 @@ func (dm *DMap) readRepair(winner *version, versions []*version) {
 			if err != nil {
 				dm.s.log.V(3).Printf("[ERROR] Failed to synchronize with replica: %v", err)
 			}
-			f.Unlock()
 		} else {
 			// If readRepair is enabled, this function is called by every GET request.
 			cmd := protocol.NewPutEntry(dm.name, winner.entry.Key(), winner.entry.Encode()).Command(dm.s.ctx)
